@@ -43,16 +43,22 @@ static std::string pk; static int pcap, pel; static unsigned char *zone = nullpt
 template <size_t S> struct Obj { char d[S]; };
 static igris::static_object_pool<Obj<8>, 4> *S84; static igris::static_object_pool<Obj<24>, 3> *S243; static igris::static_object_pool<Obj<64>, 1> *S641; static igris::static_object_pool<Obj<12>, 5> *S125;
 static std::vector<void *> plive;
+// a second zone engaged later into the same pool_head (kind "ph"): cells pcap0 .. pcap0 + n2 - 1
+static unsigned char *zone2 = nullptr; static int pcap0 = 0, n2cells = 0;
 static void *pbase() { if (pk == "sop") { if (pel == 8) return S84->storage.data(); if (pel == 24) return S243->storage.data(); if (pel == 64) return S641->storage.data(); return S125->storage.data(); } return zone + 64; }
 static size_t pstride() { if (pk == "sop") { if (pel == 8) return sizeof(S84->storage[0]); if (pel == 24) return sizeof(S243->storage[0]); if (pel == 64) return sizeof(S641->storage[0]); return sizeof(S125->storage[0]); } return pel; }
 static pool_head *phead() { if (pk == "ph") return &PH; if (pk == "sop") { if (pel == 8) return S84->freelist(); if (pel == 24) return S243->freelist(); if (pel == 64) return S641->freelist(); return S125->freelist(); } return nullptr; }
-static long cell_of(void *p) { if (!p) return -1; long d = (char *)p - (char *)pbase(); if (d < 0 || d % (long)pstride()) return -2; return d / (long)pstride(); }
+static void *cell_addr(int i) { if (zone2 && i >= pcap0) return zone2 + 64 + (size_t)(i - pcap0) * pel; return (char *)pbase() + (size_t)i * pstride(); }
+static long cell_of(void *p) { if (!p) return -1;
+    if (zone2) { long d2 = (char *)p - (char *)(zone2 + 64); if (d2 >= 0 && d2 < (long)n2cells * pel) return d2 % pel ? -2 : pcap0 + d2 / pel; }
+    long d = (char *)p - (char *)pbase(); if (d < 0 || d % (long)pstride()) return -2; return d / (long)pstride(); }
 static void pool_obs(Ev &e) {
     std::vector<long long> alloc; long avail = -1, room = -1;
     if (pk == "ip") { avail = IP->avail(); room = (long)IP->room(); for (int i = 0; i < pcap; ++i) alloc.push_back(IP->cell_is_allocated(i) ? 1 : 0); }
-    else { avail = pool_avail(phead()); room = avail; for (int i = 0; i < pcap; ++i) alloc.push_back(pool_in_freelist(phead(), (char *)pbase() + i * pstride()) ? 0 : 1); }
+    else { avail = pool_avail(phead()); room = avail; for (int i = 0; i < pcap; ++i) alloc.push_back(pool_in_freelist(phead(), cell_addr(i)) ? 0 : 1); }
     e.i("avail", avail).i("room", room).ints("alloc", alloc);
-    if (pk != "sop") e.bytes("gl", zone + 56, 8).bytes("gr", zone + 64 + pcap * pel, 8); else e.bytes("gl", "", 0).bytes("gr", "", 0);
+    if (pk != "sop") e.bytes("gl", zone + 56, 8).bytes("gr", zone + 64 + pcap0 * pel, 8); else e.bytes("gl", "", 0).bytes("gr", "", 0);
+    if (zone2) { unsigned char g[16]; memcpy(g, zone2 + 56, 8); memcpy(g + 8, zone2 + 64 + n2cells * pel, 8); e.bytes("g2", g, 16); } else e.bytes("g2", "", 0);
 }
 int main(int argc, char **argv) {
     return run(argc, argv, [&](const std::vector<std::string> &t) {
@@ -62,7 +68,7 @@ int main(int argc, char **argv) {
                 if (t[1] == "heapbig") { if (!bigbase) { bigbase = (char *)mmap(nullptr, BIGARENA, PROT_READ | PROT_WRITE, MAP_PRIVATE | MAP_ANONYMOUS | MAP_NORESERVE, -1, 0); if (bigbase == (char *)MAP_FAILED) { perror("mmap"); exit(3); } }
                     base = bigbase; unit = 8; } else { base = _heap_start; unit = 1; }
                 __malloc_heap_start = base; memset(base, 0xEE, 4096); Ev e("Reset"); e.str("kind", "heap").i("cap", 0).i("el", 0); heap_obs(e); e.end(); }
-            else { pk = t[1]; pcap = num(t[2]); pel = num(t[3]); plive.clear();
+            else { pk = t[1]; pcap = num(t[2]); pel = num(t[3]); plive.clear(); pcap0 = pcap; free(zone2); zone2 = nullptr; n2cells = 0;
                 if (pk != "sop") { free(zone); zone = (unsigned char *)aligned_alloc(64, ((128 + pcap * pel + 64 + 63) / 64) * 64); memset(zone, 0xA5, 128 + pcap * pel); }
                 if (pk == "ph") { pool_init(&PH); pool_engage(&PH, zone + 64, pcap * pel, pel); }
                 else if (pk == "ip") IP.reset(new igris::pool(zone + 64, pcap * pel, pel));
@@ -76,6 +82,9 @@ int main(int argc, char **argv) {
         else if (op == "Realloc") { int id = num(t[1]); size_t n = num(t[2]); Blk b = live[id]; unsigned char *p = (unsigned char *)igv_realloc(b.p, n); long bad = -1;
             if (p) { size_t keep = b.n < n ? b.n : n; if (b.n > SPARSE && keep > EDGE) keep = EDGE; bad = bad_at(id, p, keep); fill(id, p, n, keep); live[id] = Blk{p, n}; }
             Ev e("Realloc"); e.i("id", id); req(e, n); e.i("offr", p ? (long)(((char *)p - base) % 8) : 0); rem = 0; e.i("off", off(p)); rem = 0; e.i("bad_at", bad); heap_obs(e); e.end(); }
+        else if (op == "PEngage") { int n2 = num(t[1]); if (pk != "ph" || zone2) { Ev e("PSkip"); e.end(); return; }
+            n2cells = n2; zone2 = (unsigned char *)aligned_alloc(64, ((128 + n2 * pel + 64 + 63) / 64) * 64); memset(zone2, 0xA5, 128 + n2 * pel); pool_engage(&PH, zone2 + 64, n2 * pel, pel); pcap += n2;
+            Ev e("PEngage"); e.i("n2", n2); pool_obs(e); e.end(); }
         else if (op == "PAlloc") { void *p = nullptr;
             if (pk == "ph") p = pool_alloc(&PH); else if (pk == "ip") p = IP->get();
             else if (pel == 8) p = S84->create(); else if (pel == 24) p = S243->create(); else if (pel == 64) p = S641->create(); else p = S125->create();
